@@ -95,7 +95,14 @@ fn history<C: Col + ColorMapping>(ctx: &mut Ctx, rng: &mut Rng, palette: &[C]) {
     d.set_allow_out_of_bounds_drawing(flags.1);
     let mut m = Model::default();
     // operations concentrate on a small hot area so that repeated points are frequent
-    let hot = rect(rng.i32r(0, 50), rng.i32r(0, 50), rng.u32r(2, 12), rng.u32r(2, 12));
+    // (placed so that the first and the last rows/columns of the display are reached as well)
+    let (hw, hh) = (rng.u32r(2, 12), rng.u32r(2, 12));
+    let edge = |rng: &mut Rng, size: u32| match rng.below(4) {
+        0 => 0,
+        1 => 64 - size as i32,
+        _ => rng.i32r(0, 64 - size as i32),
+    };
+    let hot = rect(edge(rng, hw), edge(rng, hh), hw, hh);
     let n_ops = rng.usizer(1, 10);
     let mut trace: Vec<String> = Vec::new();
     let cname = C::name();
